@@ -135,11 +135,6 @@ func (p *SNIProxy) ServeTCP(in net.Conn) error {
 		return err
 	}
 
-	errc := make(chan error, 2)
-	cp := func(dst io.Writer, src io.Reader, c gkm.Counter) {
-		errc <- copyBuffer(dst, src, c)
-	}
-
 	// we've received the ClientHello already
 	if t.RxCounter != nil {
 		t.RxCounter.Add(float64(n))
@@ -148,9 +143,7 @@ func (p *SNIProxy) ServeTCP(in net.Conn) error {
 	// The buffered reader may hold data which the client has sent
 	// together with the ClientHello. Keep reading from it so that
 	// these bytes are forwarded as well.
-	go cp(in, out, t.RxCounter)
-	go cp(out, tlsReader, t.TxCounter)
-	err = <-errc
+	err = tunnel(in, tlsReader, out, t.RxCounter, t.TxCounter)
 	if err != nil && err != io.EOF {
 		log.Print("[WARN]: tcp+sni:  ", err)
 		return err
